@@ -4,6 +4,7 @@
 cd /verif || exit 2
 for d in seeded/${1:-*}/; do
   id=$(basename "$d"); prop=$(/venv/bin/python -c "import json,sys; print(json.load(open('$d/meta.json'))['property'])")
+  if grep -q '"neutralised_by"' "$d/meta.json"; then echo "NEUTRAL  $id (its change is no regression on the current tree any more)"; continue; fi
   out=$(tools/mutant.sh "$d/patch.diff" "$prop" 2>&1)
   if echo "$out" | grep -q "PATCH DOES NOT APPLY"; then echo "NOAPPLY  $id"; continue; fi
   n=$(echo "$out" | grep -c "^VIOLATION")
